@@ -345,8 +345,17 @@ func indexVal(x, idx value) value {
 			panic(rtPanic(fmt.Sprintf("runtime error: index out of range [%d] with length %d", i, len(x))))
 		}
 		return x[i]
-	case string, sstring:
-		b := strBytes(x)
+	case string:
+		if _, sym := idx.(*Term); !sym {
+			i := asInt64(idx)
+			if i < 0 || i >= int64(len(x)) {
+				panic(rtPanic(fmt.Sprintf("runtime error: index out of range [%d] with length %d", i, len(x))))
+			}
+			return x[i]
+		}
+		return indexVal(sstring(strBytes(x)), idx)
+	case sstring:
+		b := []value(x)
 		if it, ok := idx.(*Term); ok {
 			boundsCheck(it, len(b))
 			return untermScalar(uint8(0), selectByIndex(b, it))
